@@ -73,10 +73,39 @@ def lit(b):
     return '"' + s.replace("\\", "\\\\").replace('"', '\\"').replace("\n", "\\n").replace("\t", "\\t") + '"'
 
 
+PLACEMENTS = ("straight", "loop", "function", "computed")
+
+
+def lit2(b):
+    """The same text as the concatenation of two literals (a computed, owned string)."""
+    s = b.decode("utf-8")
+    if len(s) < 2:
+        return lit(b) + ' add ""'
+    h = len(s) // 2
+    return lit(s[:h].encode()) + " add " + lit(s[h:].encode())
+
+
+class _Placed:
+    """lines.append(call) -> the call placed according to the instance's placement."""
+
+    def __init__(self, inst, raw):
+        self.inst, self.raw, self.i = inst, raw, 0
+
+    def append(self, line):
+        self.i += 1
+        self.raw.append(self.inst.placed(self.i, line))
+
+
 class Instance:
     """Turns one TLC record (or given case) into a script, a host policy and the expected child report."""
 
-    def __init__(self, rec, caps, allow, tok, timeouts, S, rng, base, exact_paths=False):
+    def __init__(self, rec, caps, allow, tok, timeouts, S, rng, base, exact_paths=False, placement="straight"):
+        # WHERE in the script the builder calls sit (the call order is the model's): straight-line,
+        # each in its own loop body, each in a function mutating the outer command, or with
+        # computed (concatenated) argument strings.  The frame arena is reset at the end of every
+        # loop iteration and function call, so the builder must have copied what it keeps.
+        self.placement = placement
+        self.src = None
         self.rec, self.caps, self.allow, self.tok, self.timeouts, self.S, self.rng = rec, caps, allow, tok, timeouts, S, rng
         self.pdir = os.path.join(base, "p") + "/"
         self.ddir = os.path.join(base, "d") + "/"
@@ -129,10 +158,24 @@ class Instance:
         return self.keys[tok]
 
     def build(self):
+        if self.src is None:
+            self.src = self.build_once()
+        return self.src
+
+    def placed(self, i, line):
+        if self.placement == "loop":
+            return "make k%d get 0\njasi (k%d small pass 1) start\n    %s\n    k%d get k%d add 1\nend" % (i, i, line, i, i)
+        if self.placement == "function":
+            return "do step%d() start\n    %s\nend\nstep%d()" % (i, line, i)
+        return line
+
+    def build_once(self):
         rec = self.rec
         prog = self.text(rec["prog"], "prog")
         self.by_call[0] = [prog]
-        lines = ["make c get command(%s)" % lit(prog)]
+        lit = lit2 if self.placement == "computed" else globals()["lit"]
+        raw = ["make c get command(%s)" % lit(prog)]
+        lines = _Placed(self, raw)
         for i, call in enumerate(rec["calls"], start=1):
             m = call[0]
             if m == "arg":
@@ -155,9 +198,12 @@ class Instance:
                 lines.append("c.timeout_ms(%d)" % (self.timeouts[call[1]] * UNIT_MS))
             else:
                 lines.append("c.%s()" % m)
-        lines.append("make r get c.run()")
-        lines.append("shout(r.exit_code())")
-        return "\n".join(lines) + "\n"
+        if self.placement in ("loop", "function"):
+            # churn: re-use whatever the frame resets above gave back
+            raw.append('make junk get 0\njasi (junk small pass 3) start\n    make filler get "%s" add "R"\n    junk get junk add 1\nend' % ("Q" * 48))
+        raw.append("make r get c.run()")
+        raw.append("shout(r.exit_code())")
+        return "\n".join(raw) + "\n"
 
     def policy(self):
         c, S = self.caps, self.S
@@ -338,13 +384,15 @@ def run(tier):
         models[name]["replayed"] = len(chosen)
         for rec in chosen:
             S = rng.choice((1, 1, 3, 16))
-            inst = Instance(rec, caps, bool(allow), tok, tm, S, random.Random(rng.random()), base)
-            src = inst.build()
-            materialise(inst.made)
-            inst.plan = name
-            insts[nid] = inst
-            reqs.append({"id": nid, "modes": ["run"], "kind": "builder", "src": src, "policy": inst.policy(), "out": os.path.join(base, "side", "s%d" % nid)})
-            nid += 1
+            places = [PLACEMENTS[nid % 4]] if quick else ["straight", PLACEMENTS[1 + nid % 3]]
+            for placement in places:
+                inst = Instance(rec, caps, bool(allow), tok, tm, S, random.Random(rng.random()), base, placement=placement)
+                src = inst.build()
+                materialise(inst.made)
+                inst.plan = name
+                insts[nid] = inst
+                reqs.append({"id": nid, "modes": ["run"], "kind": "builder", "src": src, "policy": inst.policy(), "out": os.path.join(base, "side", "s%d" % nid)})
+                nid += 1
 
     # the real default limits, judged by the same model
     cases = real_limit_cases()
@@ -393,7 +441,7 @@ def run(tier):
             continue
         for suffix, desc in bad:
             rule = "+".join(sorted(o.get("why", []))) if o["k"] == "refuse" else o["k"]
-            key = "%s:%s" % (suffix, rule)
+            key = "%s:%s" % (suffix, rule) + ("" if inst.placement in ("straight", "computed") else ":" + inst.placement)
             v.finding(key, "%s [limits %s, scale %d]\ncalls %s on program token %s; model outcome %s\nscript:\n%s" % (
                 desc, inst.plan, inst.S, inst.rec["calls"][:8], inst.rec["prog"], {k: o[k] for k in o if k != "argv"} if len(str(o)) > 600 else o, inst.build()[:1500]),
                 {"limits": inst.plan, "scale": inst.S, "policy": inst.policy(), "calls": inst.rec["calls"][:300], "program_token": inst.rec["prog"],
@@ -408,7 +456,7 @@ def run(tier):
         "distinct_nontrivial": sum(1 for i in insts.values() if len(i.rec["calls"]) >= 1),
         "rule": "one case per Run outcome TLC prints (distinct call sequences by construction); non-trivial = at least one builder call before run()",
         "exhaustive": all(p[5] >= 1.0 for p in plans), "models": models, "replayed": len(insts), "agreeing": agree, "spawns_compared_byte_for_byte": spawned_ok,
-        "model_outcomes_replayed": dict(outcome_counts), "real_limit_cases": len(cases), "samples": samples,
+        "model_outcomes_replayed": dict(outcome_counts), "replayed_by_placement": dict(collections.Counter(i.placement for i in insts.values())), "real_limit_cases": len(cases), "samples": samples,
     }
     v.assumptions = ["tokens are instantiated without `{`, `}`, CR (NaijaScript literals cannot express them without templating) and without `/` in file names",
                      "program and cwd lengths are affine in the model length (directory prefix + S * len); the limits are shifted by the same prefix",
